@@ -17,6 +17,12 @@ for marker,order,desc in (('Default','le','little endian'),('BigEndian','be','bi
         //@ end
         //@ fn exp:zvt_builder | impl Encoding<{t}> for {marker} | decode | mod=encoding props=C02
         //@ end
+        open spec fn self_delimiting() -> bool {{ true }}
+        proof fn law_dec_bounds(b: Seq<u8>) {{}}
+        //@ tag enc.law_dec_frame.{order}.{t} C14
+        proof fn law_dec_frame(b: Seq<u8>, s: Seq<u8>) {{
+            assert((b + s).subrange(0, {n}) =~= b.subrange(0, {n}));
+        }}
         //@ tag enc.law_inverse.{order}.{t} C17 C01
         proof fn law_inverse(v: &{t}) {{
             lemma_{order}{n}_inv(*v as nat);
